@@ -52,8 +52,14 @@ var props = map[string]propSpec{
 		{Pkg: "registration", Fn: "VerifC03NodeSide", Validate: 4, MustReach: []string{"own-request-accepted", "own-request-rejected"}},
 	}, Assumptions: with(), Explanation: "validateFetchRequestCommon with every bundle field, signature provenance, skew and clock symbolic"},
 	"C04": {Harnesses: []harnessSpec{
-		{Pkg: "rotation", Fn: "VerifC04Certificates", Validate: 4},
-	}, Assumptions: with("clock assumption: the honest flow finishes within 100 ms of symbolic time"), Explanation: "honest enrollment flow from SSA, certificates inspected"},
+		{Pkg: "rotation", Fn: "VerifC04OperatorFlow", Validate: 4, MustReach: []string{"end"}, ShardBits: 2},
+		{Pkg: "rotation", Fn: "VerifC04TokenFlow", Validate: 4, MustReach: []string{"end"}, ShardBits: 2},
+		{Pkg: "rotation", Fn: "VerifC04WrapperFlow", Validate: 4, MustReach: []string{"end"}, ShardBits: 2},
+		{Pkg: "rotation", Fn: "VerifC04RewrappedFlow", Validate: 4, MustReach: []string{"end"}, ShardBits: 2},
+		{Pkg: "rotation", Fn: "VerifC04NodeRefuses", Validate: 4, MustReach: []string{"accepted", "refused"}},
+		{Pkg: "rotation", Fn: "VerifC04ShortRandom", Validate: 3, MustReach: []string{"authorized", "refused"}},
+	}, Assumptions: with("clock assumption: the honest flow finishes within 1 s of symbolic time (vf.ShortScenario)", "the symbolic run uses the harness's marshal-based storage; file and store-once back ends are covered by C19"),
+		Explanation: "the four honest enrollment flows from SSA (storage wrappers on/off on both sides, application state on/off) with every issued certificate inspected; node-side refusal of foreign or wrong-nonce responses; full-entropy server key"},
 	"C05": {Harnesses: []harnessSpec{
 		{Pkg: "tls", Fn: "VerifC05KeyIdPath1", Validate: 8, MustReach: []string{"gate-passed", "rejected"}, Panics: true},
 		{Pkg: "tls", Fn: "VerifC05KeyIdPath2", Validate: 8, MustReach: []string{"gate-passed", "rejected"}, Panics: true},
